@@ -37,7 +37,7 @@ def fresh(args) -> dict:
     p.start()
     b.close()
     try:
-        out = a.recv() if a.poll(120) else {"error": "history did not finish in 120 s"}
+        out = a.recv() if a.poll(300) else {"error": "history did not finish in 300 s"}
     except EOFError:
         out = {"error": "child died"}
     p.join(5)
@@ -50,7 +50,15 @@ def _fresh_many(jobs):
     from concurrent.futures import ThreadPoolExecutor  # noqa: PLC0415
 
     with ThreadPoolExecutor(max_workers=6) as ex:
-        return list(ex.map(fresh, jobs))
+        results = list(ex.map(fresh, jobs))
+    # a terminating test case that timed out (3 s budget, the machine may be heavily loaded) is run again
+    # on its own with a budget of 20 s; only a timeout that repeats there is an observation
+    for n, (job, r) in enumerate(zip(jobs, results)):
+        if "ev" in r and any(e["timeout"] for e in r["ev"]):
+            again = fresh((*job[:3], 20))
+            if "ev" in again:
+                results[n] = again
+    return results
 
 
 def run(ctx: Ctx) -> None:
